@@ -201,9 +201,10 @@ def render(f, rng, ws=None, comments=None, **over):
     out += g['dstr'] + over.get('sep1', w1())
     out += over.get('moname', mixcase(MONN[g['mo'] - 1], rng)) + over.get('sep2', w1())
     out += g['ystr'] + over.get('sep3', w1())
-    out += over.get('hstr', '%02d' % g['h']) + over.get('colon1', ':') + over.get('mistr', '%02d' % g['mi'])
+    colon = (lambda: ':' if rng.random() < 0.85 else rng.choice([' :', ': ', ' : ', '\t:', ':\r\n ', '  :  '])) if ws is None else (lambda: ':')
+    out += over.get('hstr', '%02d' % g['h']) + over.get('colon1', colon()) + over.get('mistr', '%02d' % g['mi'])
     if g['s'] is not None:
-        out += over.get('colon2', ':') + over.get('sstr', '%02d' % g['s'])
+        out += over.get('colon2', colon()) + over.get('sstr', '%02d' % g['s'])
     out += over.get('sep4', w1()) + g['zone']
     out += gen_comments(rng) if comments is None else comments
     return out
